@@ -1,0 +1,221 @@
+//! Verification hooks, compiled only with the cargo feature `verif` (off by default).
+//!
+//! * a thread-local monitor called after every `Instruction::exec`: is the produced value a member
+//!   of the instruction's own `return_type()`, judged by the value's run-time tag and by its
+//!   contents recursively?
+//! * a fuel counter ticked by loops and function calls, so that runaway programs end as
+//!   "inconclusive" (a `FuelExhausted` panic payload) instead of hanging the checker.
+use crate::{
+    function::Function,
+    instruction::{ExecResult, Instruction},
+    variable::{ReturnType, Type, Typed, Variable},
+};
+use std::cell::{Cell, RefCell};
+use std::collections::HashSet;
+
+#[derive(Debug, Clone)]
+pub struct Violation {
+    /// instruction kind, with the operator for binary / unary operations
+    pub kind: String,
+    pub static_type: Type,
+    pub value: Variable,
+    /// `value.as_type().matches(static_type)`
+    pub tag_ok: bool,
+    /// recursive membership of the contents
+    pub content_ok: bool,
+}
+
+/// payload of the panic raised when the fuel given to `start` is used up
+pub struct FuelExhausted;
+
+thread_local! {
+    static ENABLED: Cell<bool> = const { Cell::new(false) };
+    static REENTER: Cell<bool> = const { Cell::new(false) };
+    static FUEL: Cell<u64> = const { Cell::new(u64::MAX) };
+    static OBSERVED: Cell<u64> = const { Cell::new(0) };
+    static HELPER_STACK: RefCell<Vec<bool>> = const { RefCell::new(Vec::new()) };
+    static HELPER_BODIES: RefCell<HashSet<usize>> = RefCell::new(HashSet::new());
+    static VIOLATIONS: RefCell<Vec<Violation>> = const { RefCell::new(Vec::new()) };
+}
+
+/// switch the monitor on for the current thread
+pub fn start(fuel: u64) {
+    ENABLED.with(|e| e.set(true));
+    REENTER.with(|e| e.set(false));
+    FUEL.with(|f| f.set(fuel));
+    OBSERVED.with(|o| o.set(0));
+    HELPER_STACK.with(|s| s.borrow_mut().clear());
+    VIOLATIONS.with(|v| v.borrow_mut().clear());
+}
+
+/// switch it off; returns what it recorded and how many instruction results it judged
+pub fn finish() -> (Vec<Violation>, u64) {
+    ENABLED.with(|e| e.set(false));
+    FUEL.with(|f| f.set(u64::MAX));
+    let v = VIOLATIONS.with(|v| std::mem::take(&mut *v.borrow_mut()));
+    (v, OBSERVED.with(|o| o.get()))
+}
+
+/// `Instruction::exec` calls itself once more through the monitor; this tells the two calls apart
+pub fn reentered() -> bool {
+    if !ENABLED.with(|e| e.get()) {
+        return true;
+    }
+    REENTER.with(|r| {
+        let was = r.get();
+        r.set(!was);
+        was
+    })
+}
+
+pub fn tick() {
+    FUEL.with(|f| {
+        let left = f.get();
+        if left == 0 {
+            f.set(u64::MAX);
+            std::panic::panic_any(FuelExhausted);
+        }
+        if left != u64::MAX {
+            f.set(left - 1);
+        }
+    });
+}
+
+fn body_key(f: &Function) -> Option<usize> {
+    match &f.body {
+        crate::function::Body::Lang(body) => Some(body.as_ptr() as usize),
+        crate::function::Body::Native(_) => None,
+    }
+}
+
+/// the generic helper closures behind `@`, `?` and `~` are written once with `int` placeholders
+/// and run on values of any type; their bodies are not judged against those placeholders
+pub fn mark_helper(f: &Function) {
+    if let Some(k) = body_key(f) {
+        HELPER_BODIES.with(|h| {
+            h.borrow_mut().insert(k);
+        });
+    }
+}
+
+pub struct FnGuard(bool);
+
+pub fn enter_fn(f: &Function) -> FnGuard {
+    if !ENABLED.with(|e| e.get()) {
+        return FnGuard(false);
+    }
+    tick();
+    let helper = body_key(f).is_some_and(|k| HELPER_BODIES.with(|h| h.borrow().contains(&k)));
+    HELPER_STACK.with(|s| s.borrow_mut().push(helper));
+    FnGuard(true)
+}
+
+impl Drop for FnGuard {
+    fn drop(&mut self) {
+        if self.0 {
+            HELPER_STACK.with(|s| {
+                s.borrow_mut().pop();
+            });
+        }
+    }
+}
+
+/// content-based membership of a value in a type (independent of `Type::matches` on tags)
+pub fn inhabits(v: &Variable, t: &Type) -> bool {
+    match (v, t) {
+        (_, Type::Any) => true,
+        (_, Type::Never) => false,
+        (_, Type::Multi(m)) => m.iter().any(|t| inhabits(v, t)),
+        (Variable::Bool(_), Type::Bool)
+        | (Variable::Int(_), Type::Int)
+        | (Variable::Float(_), Type::Float)
+        | (Variable::String(_), Type::String)
+        | (Variable::Void, Type::Void) => true,
+        (Variable::Array(a), Type::Array(e)) => a.iter().all(|x| inhabits(x, e)),
+        (Variable::Tuple(vs), Type::Tuple(ts)) => {
+            vs.len() == ts.len() && vs.iter().zip(ts.iter()).all(|(v, t)| inhabits(v, t))
+        }
+        (Variable::Struct(m), Type::Struct(st)) => {
+            st.0.iter().all(|(k, t)| m.get(k).is_some_and(|v| inhabits(v, t)))
+        }
+        (Variable::Function(f), Type::Function(_)) => f.as_type().matches(t),
+        (Variable::Mut(m), Type::Mut(inner)) => {
+            m.var_type == **inner
+                && m.variable.try_read().map(|g| inhabits(&g, inner)).unwrap_or(true)
+        }
+        _ => false,
+    }
+}
+
+fn kind_of(ins: &Instruction) -> String {
+    match ins {
+        Instruction::AnonymousFunction(_) => "AnonymousFunction".into(),
+        Instruction::Array(_) => "Array".into(),
+        Instruction::ArrayRepeat(_) => "ArrayRepeat".into(),
+        Instruction::Block(_) => "Block".into(),
+        Instruction::Break => "Break".into(),
+        Instruction::Continue => "Continue".into(),
+        Instruction::DestructTuple(_) => "DestructTuple".into(),
+        Instruction::FieldAccess(_) => "FieldAccess".into(),
+        Instruction::FunctionDeclaration(_) => "FunctionDeclaration".into(),
+        Instruction::IfElse(_) => "IfElse".into(),
+        Instruction::LocalVariable(..) => "LocalVariable".into(),
+        Instruction::Loop(_) => "Loop".into(),
+        Instruction::Match(_) => "Match".into(),
+        Instruction::Mut(_) => "Mut".into(),
+        Instruction::Reduce(_) => "Reduce".into(),
+        Instruction::Set(_) => "Set".into(),
+        Instruction::SetIfElse(_) => "SetIfElse".into(),
+        Instruction::Slicing(_) => "Slicing".into(),
+        Instruction::Struct(_) => "Struct".into(),
+        Instruction::Tuple(_) => "Tuple".into(),
+        Instruction::TupleAccess(_) => "TupleAccess".into(),
+        Instruction::TypeFilter(_) => "TypeFilter".into(),
+        Instruction::Variable(_) => "Variable".into(),
+        Instruction::BinOperation(b) => format!("BinOperation:{:?}", b.op),
+        Instruction::UnaryOperation(u) => format!("UnaryOperation:{:?}", u.op),
+    }
+}
+
+pub fn observe(ins: &Instruction, result: ExecResult) -> ExecResult {
+    let Ok(value) = &result else {
+        return result;
+    };
+    let in_helper = HELPER_STACK.with(|s| s.borrow().last().copied().unwrap_or(false));
+    if in_helper {
+        return result;
+    }
+    OBSERVED.with(|o| o.set(o.get() + 1));
+    let static_type = match std::panic::catch_unwind(std::panic::AssertUnwindSafe(|| ins.return_type())) {
+        Ok(t) => t,
+        Err(_) => {
+            VIOLATIONS.with(|v| {
+                v.borrow_mut().push(Violation {
+                    kind: format!("{}:return_type-panicked", kind_of(ins)),
+                    static_type: Type::Never,
+                    value: value.clone(),
+                    tag_ok: false,
+                    content_ok: false,
+                })
+            });
+            return result;
+        }
+    };
+    let tag_ok = value.as_type().matches(&static_type);
+    let content_ok = inhabits(value, &static_type);
+    if !(tag_ok && content_ok) {
+        VIOLATIONS.with(|v| {
+            let mut v = v.borrow_mut();
+            if v.len() < 64 {
+                v.push(Violation {
+                    kind: kind_of(ins),
+                    static_type,
+                    value: value.clone(),
+                    tag_ok,
+                    content_ok,
+                })
+            }
+        });
+    }
+    result
+}
